@@ -326,6 +326,10 @@ func c02MigrationProbe(c *fw.Case) {
 // configuration shifted to an earlier start; before the first block an accepted
 // MsgUpdateMintersParams (every second time MsgUpdateParams) installs the generated one.
 func c02UpdateProbe(c *fw.Case) {
+	if (c.Index/16)%2 == 1 {
+		c02DiscardedUpdateProbe(c)
+		return
+	}
 	mc := gen.Minters(c.R, "uc4e", 36)
 	horizon := mc.Horizon(c.R)
 	bounds := mc.Schedule.Boundaries(horizon, 40)
@@ -364,4 +368,59 @@ func c02UpdateProbe(c *fw.Case) {
 	defer func() { c02BeforeBlock, c02GenesisParams = nil, nil }()
 	cum, _, _, _, _ := c02RunPartition(c, mc, times, 0)
 	c.Nontrivial(accepted && cum != nil && cum.Sign() > 0 && c.NViol() == 0)
+}
+
+// c02DiscardedUpdateProbe: an update that ran on a branch of the state which was then thrown
+// away - x/gov does that with a proposal whose later message fails, every node does it when it
+// simulates a transaction - never happened. In the middle of a partition another valid
+// schedule is put through the routed handler on a branched context that is discarded; the
+// emission keeps following the stored schedule.
+func c02DiscardedUpdateProbe(c *fw.Case) {
+	mc := gen.Minters(c.R, "uc4e", 36)
+	other := gen.Minters(c.R, "uc4e", 36)
+	horizon := mc.Horizon(c.R)
+	bounds := mc.Schedule.Boundaries(horizon, 40)
+	times := gen.Partition(c.R, gen.Epoch, horizon, bounds, c.R.Intn(5), 40)
+	c.Describe("discarded-update", strings.Join(mc.Desc, ""), mc.Describe(), other.Describe())
+	if len(times) < 3 {
+		return
+	}
+	at := c.R.Intn(len(times) - 1)
+	ran := false
+	c02BeforeBlock = func(c *fw.Case, n *chain.Node, i int) bool {
+		if i != at {
+			return true
+		}
+		// periods renumbered so that the current period exists in the other schedule too
+		cur := n.App.CfeminterKeeper.GetMinterState(n.Ctx()).SequenceId
+		minters := other.Params.Minters
+		if len(other.Sorted) > 0 && other.FirstID != cur {
+			for _, m := range other.Sorted {
+				m.SequenceId = m.SequenceId - other.FirstID + cur
+			}
+		}
+		msgs := []sdk.Msg{&minttypes.MsgUpdateMintersParams{Authority: govAuthority(), StartTime: other.Params.StartTime, Minters: minters},
+			&minttypes.MsgUpdateParams{Authority: govAuthority(), MintDenom: "uc4e", StartTime: other.Params.StartTime, Minters: minters}}
+		msg := msgs[c.R.Intn(2)]
+		handler := n.App.MsgServiceRouter().Handler(msg)
+		if handler == nil {
+			return true
+		}
+		cctx, _ := n.Ctx().CacheContext()
+		var herr error
+		if p := safeCall("handler", func() { _, herr = handler(cctx, msg) }); p != nil {
+			c.ViolateD("C10/update-panic", p.Stack, "minter update panicked: %s", short(p.Value, 200))
+			return false
+		}
+		ran = true
+		if herr == nil {
+			c.Count("discarded_updates_that_had_been_accepted", 1)
+		} else {
+			c.Count("discarded_updates_that_had_been_refused", 1)
+		}
+		return true
+	}
+	defer func() { c02BeforeBlock = nil }()
+	cum, _, _, _, _ := c02RunPartition(c, mc, times, 0)
+	c.Nontrivial(ran && cum != nil && cum.Sign() > 0 && c.NViol() == 0)
 }
